@@ -67,6 +67,11 @@ def gen_dir(ch, depth, counter, top=False):
         counter[0] += 1
         idx = {"title": f"T{counter[0]} index" if (top or ch.bool(8, 9)) else None, "n": counter[0], "ordered": [],
                "copy_subdir": list(d["copydirs"]), "missing": None}
+        if not top and d["shared"] and PROJECT_COPY[0] and not idx["copy_subdir"] and not d["files"] and ch.bool(1, 2):
+            # (only where index.md is the directory's only page: other pages of the directory apply the project-wide
+            #  setting themselves)
+            # an empty `copy_subdir:` switches the project-wide setting off for this directory (user guide, subtutorial_01)
+            idx["copy_subdir_off"] = True
         if idx["copy_subdir"] and ch.bool(1, 3):
             # an entry naming a directory that does not exist: reported, the others are still copied
             idx["copy_subdir"].insert(ch.int(len(idx["copy_subdir"]) + 1), "nowhere")
@@ -129,7 +134,7 @@ def expected_pages(d, loc=""):
     for name, files in d["copydirs"].items():
         for f in files:
             copied.append(os.path.join(loc, name, f))
-    if d.get("shared") and PROJECT_COPY[0]:
+    if d.get("shared") and PROJECT_COPY[0] and not d["index"].get("copy_subdir_off"):
         for f in d["shared"]:
             copied.append(os.path.join(loc, "shared", f))
     return nav, pages, copied, reported
@@ -173,6 +178,8 @@ def render_tree(d, ch, loc, all_pages, depth, files):
     if d["index"] is not None:
         idx = d["index"]
         extra = [f"ordered_subpage: {x}" for x in idx["ordered"]] + [f"copy_subdir: {x}" for x in idx["copy_subdir"]]
+        if idx.get("copy_subdir_off"):
+            extra.append("copy_subdir:")
         if idx["title"] is None:
             extra = ["author: nobody"] + extra
         files[os.path.join(base, "index.md")] = meta(idx["title"], extra) + body(idx["n"], os.path.join(loc, "index.html"))
@@ -205,13 +212,22 @@ def gen_case(ch: Chooser, excl=()):
                "preprocess": False, "parallel": 0, "search": ch.bool(), "graph": False}
     if PROJECT_COPY[0]:
         options["copy_subdir"] = "shared"
+    latin = "encoding" not in excl and ch.bool(1, 5)
+    if latin:
+        options["encoding"] = "iso-8859-1"
     files["project.md"] = site.project_file(options, "Front page with [pages](|page|/index.html).\n")
     depth = max((p.count("/") for p in pages), default=0) + 1
     directive = any("ordered_subpage:" in v or "copy_subdir:" in v for k, v in files.items() if k.endswith(".md"))
+    if latin:
+        # the project's encoding holds for every page, at every depth
+        import base64
+        for k in [k for k in files if k.startswith("pages/") and k.endswith(".md")]:
+            files[k] = {"b64": base64.b64encode((files[k] + "\ncaf\xe9 na\xefve\n").encode("latin-1")).decode()}
     return {"files": files, "options": options, "nav": nav, "pages": sorted(pages), "copied": sorted(copied),
             "reported": reported, "may_fail_on": "ghost.md" if has_missing(tree) else None,
             "classes": [f"depth:{depth}"] + (["directive"] if directive else []) + (["titleless"] if reported else []) +
-                       (["missing-entry"] if has_missing(tree) else []) + (["project-copy_subdir"] if PROJECT_COPY[0] else []),
+                       (["missing-entry"] if has_missing(tree) else []) + (["project-copy_subdir"] if PROJECT_COPY[0] else []) +
+                       (["latin-1"] if latin else []),
             "nontrivial": depth >= 2 and directive}
 
 
